@@ -186,6 +186,39 @@ def canonicalise_text(text, mapping):
     return text
 
 
+ATOMIC_TY = re.compile(r"^std::sync::atomic::Atomic\w*(<.*>)?$")
+
+
+def atomic_newtypes(d, table):
+    """private new-types around a std atomic that the reference tree did not have (`struct CheckedCounter(AtomicUsize)`): path -> atomic type"""
+    known = set(table.get("adt", {}).values())
+    out = {}
+    for path, fl in struct_fields(d).items():
+        if path in known or len(fl) != 1:
+            continue
+        if ATOMIC_TY.match(fl[0][1].strip()):
+            out[path] = fl[0][1].strip()
+    return out
+
+
+def alias_types(node, alias, pat):
+    """replace the new-type by the atomic it wraps in every TYPE string (never in def paths) and drop projections into it, in place"""
+    if isinstance(node, dict):
+        if "proj" in node and isinstance(node["proj"], list):
+            node["proj"] = [e for e in node["proj"] if not (isinstance(e, dict) and e.get("of") in alias and "field" in e)]
+        for k, v in list(node.items()):
+            if k in ("ty", "self_ty", "place_ty") and isinstance(v, str):
+                node[k] = pat.sub(lambda m: alias[m.group(0)], v)
+            elif k == "substs" and isinstance(v, list):
+                node[k] = [pat.sub(lambda m: alias[m.group(0)], x) if isinstance(x, str) else x for x in v]
+            elif isinstance(v, (dict, list)):
+                alias_types(v, alias, pat)
+    elif isinstance(node, list):
+        for v in node:
+            if isinstance(v, (dict, list)):
+                alias_types(v, alias, pat)
+
+
 def load_json(path):
     """json.load with moved items mapped back to their canonical paths; returns (dict, mapping)"""
     with open(path) as fh:
@@ -212,6 +245,19 @@ def load_json(path):
                     if (a["path"], f["name"]) in fm:
                         f["name"] = fm[(a["path"], f["name"])]
         m = dict(m, **{"%s.%s" % k: "%s.%s" % (k[0], v) for k, v in fm.items()})
+    an = atomic_newtypes(d, table)
+    if an:
+        pat = re.compile("|".join(r"(?<![A-Za-z0-9_:])" + re.escape(k) + r"(?![A-Za-z0-9_])" for k in sorted(an, key=len, reverse=True)))
+        # the (?<!..) guards are evaluated on the whole type string; group(0) is exactly one of the keys
+        alias_types(d["bodies"], an, pat)
+        alias_types(d.get("impls", []), an, pat)
+        for a in d.get("adts", []):
+            if a.get("path") in an:
+                continue
+            for v in a.get("variants", []):
+                for f in v.get("fields", []):
+                    f["ty"] = pat.sub(lambda mm: an[mm.group(0)], f["ty"])
+        m = dict(m, **{"type " + k: v for k, v in an.items()})
     if m:
         d["_canon"] = m
     return d, m
